@@ -508,3 +508,73 @@ def run(ctx, R):
     # ---- R5.6: the compare-and-swap runs in the transaction of the change
     from psa.rules import c10
     c10.r101(ctx, R, 'R5.6')
+
+
+# wrap_db_retry around a function that reaches the provider compare-and-swap
+RETRY_OVER_CAS = {
+    'placement.objects.allocation:_set_allocations':
+        'the provider generation is no precondition of the client there: '
+        'the function itself compares every provider object with the row '
+        '(_check_capacity_exceeded) on each attempt, and it only ever runs '
+        'inside the transaction of its caller',
+}
+
+
+def r57(ctx, R):
+    """increment_generation stores the new generation in the object once
+    its UPDATE matched - before the transaction commits.  A retry scope
+    around the transaction that re-runs the function with the same object
+    after a failed COMMIT would compare-and-swap with a generation no
+    client ever sent: a stale writer succeeds over a commit it has not
+    seen.  So a function under wrap_db_retry that reaches the provider
+    compare-and-swap either retries only on an error that nothing after the
+    swap can raise, or is in the reviewed table."""
+    from psa.rules import c17
+    prog = ctx.prog
+    n = 0
+    for f in sorted(prog.funcs, key=lambda x: x.qname):
+        ds = [d for d in f.decorators if d.qname == c17.RETRY]
+        if not ds:
+            continue
+        reach = ctx.cg.reachable([f])
+        if not any(g.qbase == RP_INCR for g in reach):
+            continue
+        n += 1
+        d = ds[0]
+        if f.qbase in RETRY_OVER_CAS:
+            R.ob('R5.7', '%s:retry-over-swap' % f.qname, True,
+                 'reviewed', RETRY_OVER_CAS[f.qbase], func=f,
+                 nontrivial=False)
+            continue
+        chk = d.kwargs.get('exception_checker')
+        ok = False
+        why = 'retries on deadlock / any database error around the swap'
+        if isinstance(chk, ast.Lambda) and isinstance(
+                chk.body, ast.Call) and src(chk.body.func) == 'isinstance' \
+                and not d.kwargs.get('retry_on_deadlock'):
+            exc = prog.dotted(f.module, chk.body.args[1], f)
+            g = cfgmod.cfg_of(f)
+            incs = [s.node for s in ctx.cg.calls_in(f) if any(
+                RP_INCR in {y.qbase for y in ctx.cg.reachable([x])}
+                for x in s.callees)]
+            after = g.reachable_from([C.stmt_of(i) for i in incs])
+            late = [s.node for s in ctx.cg.calls_in(f)
+                    if s.node not in incs and exc in ctx.raises.call_raises(
+                        f, s.node) and (C.stmt_of(s.node) in after)]
+            ok = bool(incs) and not late
+            why = 'retries on %s only; %s' % (
+                exc, 'nothing after the swap raises it' if ok else
+                'raised after the swap by %s' % [src(x)[:50] for x in late])
+        R.ob('R5.7', '%s:retry-over-swap' % f.qname, ok,
+             'a retried transaction does not re-run the compare-and-swap '
+             'with the generation a failed attempt left in the object', why,
+             func=f)
+    R.count('R5.7', n, 2)
+
+
+_run_c05 = run
+
+
+def run(ctx, R):
+    _run_c05(ctx, R)
+    r57(ctx, R)
